@@ -135,6 +135,8 @@ def render(e, params=None, pre=None):
     if k == "num":
         x = u64(e["v"])
         suf = e["suf"].upper() if x & 1 else e["suf"]
+        if e["b"] == 2:
+            return "%s%s%s" % ("0B" if x & 2 else "0b", bin(x)[2:], suf)
         return ("%d%s" if e["b"] == 10 else "0%o%s" if e["b"] == 8 else "0x%x%s") % (x, suf)
     if k == "sym":
         return "arr_%s" % e["et"]
